@@ -504,6 +504,7 @@ func main() {
 	deepUnwind(seed)
 	overflow()
 	sharedCache()
+	largeModule()
 	randomPrograms(seed+77, n/2, true)
 	rep.Note("engine variants tied on this run: interpreter=%+v compiler=%+v", *variants["interpreter"], *variants["compiler"])
 	rep.Note("GOMAXPROCS=%d", runtime.GOMAXPROCS(0))
